@@ -6,18 +6,46 @@
    (recipes/C12.py).
 
    Ghost state (written by nobody but the harness / the contract's requires):
-     verif_buf, verif_len : THE buffer: a fresh object of verif_len+1 bytes
-                            whose last byte is NUL.  All other bytes are
+     verif_buf, verif_len : THE buffer: a heap object of exactly verif_len+1
+                            bytes whose last byte is NUL.  All other bytes are
                             arbitrary - in particular further NULs may occur
                             anywhere before the end; every scanner must stop
                             at the first one it meets.
      verif_g              : an arbitrary index (universally quantified by
                             nondeterminism) used to state "for every skipped
                             position ..." without quantifiers.
+     verif_gv, verif_gp   : ghost copies of the bytes at verif_g and at
+                            verif_g - 1, bound once in the precondition
+                            (GHOST_BOUND).  The buffer is never written (it
+                            is in no assigns clause), so the copies stay
+                            valid; stating the clauses over the copies keeps
+                            the number of reads of the symbolic-size buffer -
+                            the dominating cost in the solver - small.
      verif_cs, verif_cs_len : THE character set passed to inCharset / the
-                            set-taking scanners: fresh object of
-                            verif_cs_len+1 bytes, NUL at verif_cs_len
-                            (interior NULs allowed for the safety part).
+                            set-taking scanners: verif_cs_len+1 readable
+                            bytes, NUL at verif_cs_len.  The harness points
+                            verif_cs either at the ghost array verif_cs_arr
+                            (arbitrary content = any set of <= VERIF_K
+                            characters) or at the real lex::whitespaceCharset.
+                            Only inCharset ever reads a set; its memory
+                            safety for a set of ANY length (fresh object of
+                            exactly strlen+1 bytes, interior NULs allowed) is
+                            a separate group (C12_ANYSET).
+     verif_member[256]    : ghost table "ch is in THE set".  The scanners'
+                            contracts speak about the set only through this
+                            table (one array lookup instead of a 64-way
+                            disjunction).  That the table IS the
+                            characteristic function of the string verif_cs
+                            is the hypothesis CS_LINK(c) of inCharset's
+                            contract; it is used (and needed) only where
+                            inCharset itself is verified; in the callers'
+                            groups, where inCharset is replaced by its
+                            contract, C12_LINK_ASSUMED compiles the
+                            hypothesis out: there the table is an arbitrary
+                            function, i.e. the callers are proved for every
+                            table, in particular for the characteristic
+                            function of the set (which nobody modifies:
+                            every contract here has an assigns clause).
    Membership is stated exactly (quantifier free) for sets of at most
    VERIF_K = 64 characters without interior NUL; the longest set literal in
    libocca (charcodes::identifier) has 63.  */
@@ -26,6 +54,7 @@
 #include <stddef.h>
 #include <stdbool.h>
 #include <limits.h>
+#include <stdlib.h>
 
 #define VERIF_MAXLEN 100000000ul
 #define VERIF_K 64
@@ -33,15 +62,34 @@
 extern const char *verif_buf;
 extern size_t verif_len;
 extern size_t verif_g;
+extern char verif_gv, verif_gp;
+extern char verif_cs_arr[VERIF_K + 1];
 extern const char *verif_cs;
+extern _Bool verif_member[256];
 extern size_t verif_cs_len;
 
 #define OFF(p) ((size_t) __CPROVER_POINTER_OFFSET(p))
 
 /* ---- the buffer --------------------------------------------------------- */
-#define BUF_FRESH \
-  (verif_len <= VERIF_MAXLEN && __CPROVER_is_fresh(verif_buf, verif_len + 1) && \
-   verif_buf[verif_len] == 0)
+#define GHOST_BOUND \
+  ((verif_g >= verif_len || verif_gv == verif_buf[verif_g]) && \
+   (verif_g == 0 || verif_g > verif_len || verif_gp == verif_buf[verif_g - 1]))
+/* The harness allocates the buffer (malloc(verif_len + 1), arbitrary content)
+   and the storage of a by-reference cursor; the contracts only CHECK them
+   (r_ok / w_ok, exact object size, separation).  __CPROVER_is_fresh would let
+   the contract allocate them itself, but every is_fresh - above all the ones
+   re-checked at each call that is replaced by a contract - costs a multiple
+   of everything else in dfcc's instrumentation (measured: primitive::load
+   10.8 M clauses with is_fresh, 2.7 M without). */
+#define BUF_OK \
+  (verif_len <= VERIF_MAXLEN && __CPROVER_r_ok(verif_buf, verif_len + 1) && \
+   OFF(verif_buf) == 0 && __CPROVER_OBJECT_SIZE(verif_buf) == verif_len + 1 && \
+   verif_buf[verif_len] == 0 && GHOST_BOUND)
+#define ALLOC_BUF \
+  __CPROVER_assume(verif_len <= VERIF_MAXLEN); verif_buf = malloc(verif_len + 1)
+/* the byte at position verif_g / verif_g - 1 */
+#define BUF_G  verif_gv
+#define BUF_GP verif_gp
 /* cursor lvalue p points into the buffer (NUL position included) */
 #define CUR_IN_BUF(p) __CPROVER_pointer_in_range_dfcc(verif_buf, p, verif_buf + verif_len)
 #define IN_BUF(p) (__CPROVER_same_object(p, verif_buf) && OFF(p) <= verif_len)
@@ -49,10 +97,14 @@ extern size_t verif_cs_len;
 #define SKIPPED(oldp, newp) (OFF(oldp) <= verif_g && verif_g < OFF(newp))
 
 /* ---- the character set -------------------------------------------------- */
-/* (the ghost is made fresh and the parameter is bound to it with
-   pointer_equals: a plain `verif_cs == cs` assumption on a global pointer is
-   not tracked by CBMC's points-to analysis) */
-#define CS_FRESH(cs) \
+/* (the parameter is bound to the ghost with pointer_equals: a plain
+   `verif_cs == cs` assumption on a pointer is not tracked by CBMC's
+   points-to analysis) */
+#define CS_PRE(cs) \
+  (verif_cs_len <= VERIF_K && __CPROVER_r_ok(verif_cs, verif_cs_len + 1) && \
+   verif_cs[verif_cs_len] == 0 && __CPROVER_pointer_equals(cs, verif_cs))
+/* any length, fresh object of exactly strlen+1 bytes (group C12_ANYSET) */
+#define CS_FRESH_ANY(cs) \
   (verif_cs_len <= VERIF_MAXLEN && __CPROVER_is_fresh(verif_cs, verif_cs_len + 1) && \
    verif_cs[verif_cs_len] == 0 && __CPROVER_pointer_equals(cs, verif_cs))
 #define CS_NN1(k) ((k) >= verif_cs_len || verif_cs[k] != 0)
@@ -78,5 +130,12 @@ extern size_t verif_cs_len;
    (CS_M1(ch, 48, n) || CS_M1(ch, 49, n) || CS_M1(ch, 50, n) || CS_M1(ch, 51, n) || CS_M1(ch, 52, n) || CS_M1(ch, 53, n) || CS_M1(ch, 54, n) || CS_M1(ch, 55, n)) || \
    (CS_M1(ch, 56, n) || CS_M1(ch, 57, n) || CS_M1(ch, 58, n) || CS_M1(ch, 59, n) || CS_M1(ch, 60, n) || CS_M1(ch, 61, n) || CS_M1(ch, 62, n) || CS_M1(ch, 63, n)))
 #define CS_MEMBER(ch) CS_MEMBER_BELOW(ch, verif_cs_len)
+/* the ghost table */
+#define IN_SET(ch) (verif_member[(unsigned char) (ch)] != 0)
+#ifdef C12_LINK_ASSUMED
+#define CS_LINK(ch) 1
+#else
+#define CS_LINK(ch) (CS_EXACT && IN_SET(ch) == CS_MEMBER(ch))
+#endif
 
 #endif
